@@ -306,6 +306,12 @@ def run_shard(spec, ctx):
         pts = draw(st.lists(wide.wide_points(), min_size=1, max_size=5))
         if draw(st.integers(0, 9)) == 0:
             pts[0]["tags"]["big"] = draw(wide.long_text())
+        if draw(st.integers(0, 19)) == 0:
+            # a file of several hundred KiB whose rows are multi-line values (readers that work in blocks or split lines themselves)
+            unit = draw(st.sampled_from(["line\n", "l\r\n", "a,b\n\"q\"\n", "x\u2028\n"]))
+            n = draw(st.integers(30, 70))
+            base = pts[0]
+            pts = [dict(base, tags=dict(base["tags"], ml=unit * (9000 // len(unit)), i=str(i))) for i in range(n)]
         return pts, [draw(st.booleans()) for _ in pts], draw(st.sampled_from(sorted(DIALECTS))), draw(st.booleans())
 
     def fcheck(c):
